@@ -369,9 +369,15 @@ def cb_setup(I):
 
 
 def enc1(I, a):
+    """the user-supplied encrypt callable: either takes (password, username) or only (password) and then raises TypeError for two"""
     if len(a) == 2:
-        lib.raise_(I, 'TypeError', VStr('encrypt() takes 1 positional argument'))
-    return VStr(core.fn('ENCRYPT', S(), S())(a[0].t))
+        if I.st.choice(2, 'encrypt_takes_two_arguments') == 1:
+            lib.raise_(I, 'TypeError', VStr('encrypt() takes 1 positional argument'))
+        t = core.fn('ENCRYPT2', S(), S(), S())(a[0].t, a[1].t)
+    else:
+        t = core.fn('ENCRYPT', S(), S())(a[0].t)
+    I.st.ghost['ENCRYPTED'] = t
+    return VStr(t)
 
 
 def cb_post(I, outcome, ctx):
@@ -381,8 +387,13 @@ def cb_post(I, outcome, ctx):
         return
     cover(I, 'return')
     d = I.st.ghost['AUTHMAP']
-    I.oblige('ensures.true_iff_encrypted_password_matches',
-             v.t == (core.fn('ENCRYPT', S(), S())(d['password'].t) == ctx['args']['password'].t))
+    enc = I.st.ghost.get('ENCRYPTED')
+    I.oblige('ensures.true_iff_encrypted_password_matches', z3.BoolVal(False) if enc is None else v.t == (enc == ctx['args']['password'].t),
+             detail='for both signatures of the encrypt callable (password, username) and (password)')
+    if enc is not None:
+        u = d['username'].t
+        pw = d['password'].t
+        I.oblige('ensures.the_supplied_password_is_what_gets_encrypted', z3.Or(enc == core.fn('ENCRYPT', S(), S())(pw), enc == core.fn('ENCRYPT2', S(), S(), S())(pw, u)))
 
 
 SPECS.append(FucSpec(
